@@ -192,13 +192,20 @@ def _work_h(chunk):
 
 
 def run_histories(hs, workers=16):
-    """every history in a process of its own pool worker (histories never share objects with each other)"""
+    """every history in a process of its own pool worker (histories never share objects with each other);
+    a history marked "heavy" is a chunk of its own and is handed out first"""
     from concurrent.futures import ProcessPoolExecutor
     cost = sum(len(s["calls"]) for h in hs for s in h["steps"])
-    if cost < 4000 or len(hs) < 4:
+    if (cost < 4000 or len(hs) < 4) and not any(h.get("heavy") for h in hs):
         return _work_h(hs)
-    k = max(1, (len(hs) + workers * 4 - 1) // (workers * 4))
-    chunks = [hs[i:i + k] for i in range(0, len(hs), k)]
+    heavy = [n for n, h in enumerate(hs) if h.get("heavy")]
+    light = [n for n, h in enumerate(hs) if not h.get("heavy")]
+    k = max(1, (len(light) + workers * 4 - 1) // (workers * 4))
+    chunks = [[n] for n in heavy] + [light[i:i + k] for i in range(0, len(light), k)]
     with ProcessPoolExecutor(max_workers=workers) as ex:
-        outs = list(ex.map(_work_h, chunks))
-    return [x for o in outs for x in o]
+        outs = list(ex.map(_work_h, [[hs[n] for n in c] for c in chunks]))
+    res = [None] * len(hs)
+    for c, o in zip(chunks, outs):
+        for n, x in zip(c, o):
+            res[n] = x
+    return res
